@@ -503,6 +503,19 @@ def standin_clifford_state_maps(tier, seed):
                 fails.append(dict(args=dict(circuit=repr(circ), got=got), failed="qudit-sample", clause=f"cirq.sample measured {got}, expected {want}"))
         except Exception as ex:
             fails.append(dict(args=dict(circuit=repr(circ)), failed="qudit-sample", clause=f"cirq.sample raised {type(ex).__name__}: {ex} (a qudit operation claims a stabilizer effect the stabilizer simulator cannot run)"))
+    # ... and on qubits: Clifford operations for which the stabilizer simulator has no update rule still sample correctly through cirq.sample
+    a_, b_ = cirq.LineQubit.range(2)
+    for g in (cirq.MatrixGate(cirq.unitary(cirq.CZ)), cirq.PhasedISwapPowGate(phase_exponent=0.25), cirq.givens(np.pi / 2), cirq.MatrixGate(cirq.unitary(cirq.CNOT))):
+        circ = cirq.Circuit(cirq.X(a_), g.on(a_, b_), cirq.measure(a_, b_, key="m"))
+        cases += 1
+        try:
+            rows = {tuple(int(x) for x in r) for r in cirq.sample(circ, repetitions=5, seed=1).measurements["m"]}
+            psi = cirq.Circuit(cirq.X(a_), g.on(a_, b_)).final_state_vector(qubit_order=[a_, b_])
+            allowed = {tuple(int(x) for x in format(i, "02b")) for i in range(4) if abs(psi[i]) > 1e-6}
+            if not rows <= allowed:
+                fails.append(dict(args=dict(circuit=repr(circ)[:600], got=sorted(rows)), failed="clifford-sample", clause=f"cirq.sample returned outcomes {sorted(rows)} outside the support {sorted(allowed)} of the state"))
+        except Exception as ex:
+            fails.append(dict(args=dict(circuit=repr(circ)[:600]), failed="clifford-sample", clause=f"cirq.sample raised {type(ex).__name__}: {str(ex)[:120]} on a circuit of Clifford operations"))
     return dict(function="cirq-core/cirq/sim/clifford/clifford_simulator.py:CliffordState", case="clifford-state-maps", bound="seeded 2-3 qubit Clifford sequences x every qubit->axis permutation x shuffled map order",
                 cases=cases, distinct=cases, failures=len(fails), exhaustive=False, _fails=fails[:3])
 standin_clifford_state_maps.prop = "C13"
